@@ -428,6 +428,50 @@ def inst_mask_assign_history():
     return Instance("mask_assignment_after_materialization", body, {}, unit="Array.__setitem__ (dask mask) + _replace_expr caches")
 
 
+def inst_assign_dask_value(vblocks=2):
+    """x[a:a+len(v)] = v with v a lazy collection of several chunks: the value's chunks are gathered into one block per
+    touched block of x (ConcatenateArrayChunks), through the real SetItem layer, optimizer and kernels"""
+    def body(E):
+        from . import catalog
+
+        w = catalog.W(E)
+        x = catalog.source(w, E, "x", (2,))
+        v = catalog.source(w, E, "v", (vblocks,))
+        coll = w.fn(catalog.NC, "new_collection")(x.node)
+        val = w.fn(catalog.NC, "new_collection")(v.node)
+        n, nv = x.node.shape[0], v.node.shape[0]
+        a = E.int("a", 0)
+        E.assume(a + nv <= n)
+        coll[E.slice(a, a + nv, None)] = val
+        X, V = x.ref, v.ref
+        ref = SArr(X.shape, lambda idx: z3.If(z3.And(idx[0] >= _z(a), idx[0] < _z(a + nv)), V._at((idx[0] - _z(a),)), X._at(idx)))
+        low = coll._lowered_expr
+        dsk = dict(x.dsk)
+        dsk.update(v.dsk)
+        dsk.update(catalog._layers(low))
+        whole, _r = run_blocks(E, dsk, low._name, coll.chunks, label="after-assignment", kernels=dict(setitem=_real_setitem(E, W(E))))
+        same_array(E, whole, ref, label="x-after-assigning-a-chunked-value")
+
+    def api(values):
+        import dask_array as da
+
+        cx = tuple(values[f"x0_{i}"] for i in range(2))
+        cv = tuple(values[f"v0_{i}"] for i in range(vblocks))
+        a = values["a"]
+        if sum(cx) > 5000:
+            return dict(ok=False, detail="outside API replay range")
+        X, V = np.arange(sum(cx), dtype="f8"), -1.0 - np.arange(sum(cv), dtype="f8")
+        d = da.from_array(X.copy(), chunks=(cx,))
+        d[a:a + len(V)] = da.from_array(V, chunks=(cv,))
+        want = X.copy()
+        want[a:a + len(V)] = V
+        got = d.compute(scheduler="sync")
+        return dict(ok=bool(np.array_equal(got, want)), detail=f"x chunks {cx}, value chunks {cv}, x[{a}:{a + len(V)}] = v: got {got[:8].tolist()}")
+
+    return Instance(f"setitem[slice = lazy value of {vblocks} chunks]", body, dict(value_blocks=vblocks),
+                    unit="SetItem._layer + setitem_array_expr + ConcatenateArrayChunks._layer", api_replay=api)
+
+
 IDENTITY_SITE = "Array:identity-like-operation-returns-self"
 
 
@@ -499,7 +543,7 @@ def _program_instances(tier):
 
 def instances(tier):
     q = tier == "quick"
-    out = _program_instances(tier) + [inst_derived_keep_value(), inst_mask_assign_history(), inst_assign_int_list((3, 3), (1, 2, 4)),
+    out = _program_instances(tier) + [inst_derived_keep_value(), inst_mask_assign_history(), inst_assign_dask_value(2), inst_assign_int_list((3, 3), (1, 2, 4)),
                                       inst_assign_int_list((2, 2), (3, 0))]
     steps = [None, 1, 2, -1, -2] if q else [None, 1, 2, 3, -1, -2, -3]
     for m in ([1, 2, 3] if q else [1, 2, 3, 4]):
